@@ -46,7 +46,7 @@ def oracle_cases(ctx, flags_list, relation, n_corpus, n_mut, origins=None, n_ins
         for flags in flags_list:
             k += 1
             cases.append(dict(program=text, inp=pick(inp, k), outp=pick(outp, k), flags=flags, relation=relation, seed=ctx.seed * 1000003 + k,
-                              n_inst=(24 if origin == "extra" else n_inst), facts_over=facts_over, label=f"corpus:{origin}",
+                              n_inst=(14 if origin == "extra" else n_inst), facts_over=facts_over, label=f"corpus:{origin}",
                               one_to_one=one_to_one))
     pool = pref or H
     for j in range(n_mut):
